@@ -75,6 +75,55 @@ def db_pairs(K):
 
 
 # ------------------------------------------------------------------ Q
+def native_db_arrays():
+    import numpy as np
+    from opticomlib import utils as U
+    bad = []
+    for name, dom in (('db', 'pos'), ('dbm', 'pos'), ('idb', 'all'), ('idbm', 'all')):
+        f = getattr(U, name)
+        for dt in (float, int):
+            x = (np.array([1, 2, 10, 250]) if dom == 'pos' else np.array([-30, 0, 3, 20])).astype(dt)
+            table = np.stack([x, x + 1]).astype(dt)
+            for arg, label in ((x, 'ndarray'), (table[0], 'row view of a table')):
+                keep = arg.copy()
+                r1 = np.array(f(arg), copy=True)
+                same_in = np.array_equal(arg, keep)
+                r2 = f(arg)
+                ok = same_in and np.allclose(r1, r2) and not np.shares_memory(np.asarray(r2), arg) and np.allclose(r1, [float(f(float(v))) for v in keep])
+                if not ok:
+                    bad.append([name, np.dtype(dt).name, label, 'argument modified' if not same_in else 'second call differs / result aliases the argument / differs from the scalar form'])
+    return not bad, bad
+
+
+@clause('C19.db_arrays', min_obl=8)
+def db_arrays(K):
+    """the four conversions on array arguments: element-wise equal to the scalar form, argument buffer untouched, fresh result"""
+    n, i = z3.Ints('n i')
+
+    def rep(m):
+        st, out = native(native_db_arrays, 60)
+        return {'confirmed': st != 'ok' or not out[0], 'inputs': 'float64 / int64 ndarrays and row views of a 2-D table, each function called twice', 'observed': out}
+    for name, pos in (('db', True), ('dbm', True), ('idb', False), ('idbm', False)):
+        f = fn(K, 'utils.' + name)
+
+        def run(ex):
+            x = real_arr('xa', [n])
+            ex.param_provs[x.prov] = 'x'
+            if pos:
+                ex.add_forall(lambda j: toreal(x.elem((j,))) > 0)
+            return x, ex.call_fn(f, [x], {}), unwrap0(ex.call_fn(f, [x.elem((i,))], {}))
+        for p in K.paths(run, [n >= 1, i >= 0, i < n] + ([toreal(real_arr('xa', [n]).elem((i,))) > 0] if pos else [])):
+            sig = f'{name}][{p.signature()}'
+            if p.kind != 'ret':
+                K.prove(f'noraise[{sig}]', p.pc, False, replay=rep, words=f'{name} accepts a real array' + (' of positive values' if pos else ''))
+                continue
+            x, ya, ys = p.value
+            okk = isinstance(ya, Arr) and ya.ndim == 1
+            K.prove(f'elementwise[{sig}]', p.pc, z3.And(tonum(ya.shape[0]) == n, toreal(ya.elem((i,))) == toreal(ys)) if okk else False, replay=rep, words=f'{name}(array)[i] = {name}(array[i]), same length')
+            bad = frame_violations(p) + (purity_violations(p, ya) if okk else [])
+            (K.fail if bad else K.ok)(f'frame[{sig}]', '; '.join(bad) if bad else 'argument untouched, fresh result')
+
+
 @clause('C19.q', min_obl=3)
 def q_props(K):
     x, y = z3.Reals('x y')
@@ -356,3 +405,37 @@ def bounded(K):
     K.bounded('str2array', r['nbad'] == 0, {'evaluations': r['n'], 'distinct_nontrivial': r['distinct'], 'bound': f'{nrand} random arrays <= 3x6 x 6-12 renderings; all bit strings up to length {12 if nrand > 100 else 8}; dtype and invalid-character cases',
                                             'samples': r['sample'], 'failures': r['bad']})
     K.bounded('gaus', not r['gbad'], {'evaluations': r['gn'], 'distinct_nontrivial': r['gn'], 'bound': '10 seeded (mu, std), quadrature over +-12 std', 'failures': r['gbad'], 'samples': []})
+
+    def work_purity():
+        import numpy as np
+        from opticomlib import utils as U
+        bad, n = [], 0
+        ok, out = native_db_arrays()
+        n += 16
+        if not ok:
+            bad += [['dB conversions on arrays'] + o for o in out]
+        # repeated calls: the first result is modified in place, the second call must still return what the text says
+        for text, dt in (('1 0 1 1', bool), ('1,2;3,4', int), ('0.5 1.5', float), ('1+2j 3', complex), ('1011', int)):
+            try:
+                a = U.str2array(text, dt)
+                keep = a.copy()
+                a.fill(0)          # modify the first result in place
+                b = U.str2array(text, dt)
+                n += 1
+                if np.shares_memory(a, b) or not np.array_equal(b, keep):
+                    bad.append(['str2array repeated call', text, str(dt.__name__), b.tolist()])
+            except Exception as e:
+                bad.append(['str2array', text, f'{type(e).__name__}: {e}'])
+        for v, d in ((5, 8), (0, 3), (255, 8)):
+            a = U.dec2bin(v, d)
+            keep = np.array(a, copy=True)
+            a[...] = 1 - a
+            b = U.dec2bin(v, d)
+            n += 1
+            if np.shares_memory(a, b) or not np.array_equal(b, keep):
+                bad.append(['dec2bin repeated call', v, d])
+        return {'n': n, 'bad': bad[:6], 'nbad': len(bad)}
+    st, r = native(work_purity, 120)
+    K.bounded('purity', st == 'ok' and r['nbad'] == 0, {'evaluations': r['n'] if st == 'ok' else 0, 'distinct_nontrivial': r['n'] if st == 'ok' else 0,
+              'bound': 'db/dbm/idb/idbm on float and int ndarrays and on row views (argument unchanged, second call equal, no aliasing); str2array and dec2bin called again after the first result was modified in place',
+              'samples': [{'fn': 'idbm', 'arg': 'row view of a float table'}], 'failures': r if st == 'ok' else [st, r]})
